@@ -2519,8 +2519,14 @@ class ProvDocument(ProvBundle):
                 path = location
             fd, name = tempfile.mkstemp()
             stream = os.fdopen(fd, "wb")
-            serializer.serialize(stream, **args)
-            stream.close()
+            try:
+                serializer.serialize(stream, **args)
+                stream.close()
+            except BaseException:
+                # do not leave the temporary file behind
+                stream.close()
+                os.remove(name)
+                raise
             if hasattr(shutil, "move"):
                 shutil.move(name, path)
             else:
